@@ -19,7 +19,13 @@ func c03NewFS() hackpadfs.FS {
 	return c03NewFSKind(kind)
 }
 
+// For views, the pre-state is built through the parent (below c03BuildPrefix): what exists does not depend
+// on the view working.
+var c03BuildFS hackpadfs.FS
+var c03BuildPrefix string
+
 func c03NewFSKind(kind int) hackpadfs.FS {
+	c03BuildFS, c03BuildPrefix = nil, ""
 	newMem := func() *mem.FS {
 		m, err := mem.NewFS()
 		verifAssert(err == nil, "NewFS failed")
@@ -58,14 +64,17 @@ func c03NewFSKind(kind int) hackpadfs.FS {
 		return mfs
 	case 6:
 		// the generic view whose base directory is the root itself
-		sub, err := hackpadfs.Sub(newMem(), ".")
+		base := newMem()
+		sub, err := hackpadfs.Sub(base, ".")
 		verifAssert(err == nil, "Sub(., generic) failed")
+		c03BuildFS = base
 		return sub
 	case 3:
 		base := newMem()
 		verifAssert(base.Mkdir("s", 0755) == nil, "Mkdir s")
 		sub, err := hackpadfs.Sub(base, "s")
 		verifAssert(err == nil, "Sub failed")
+		c03BuildFS, c03BuildPrefix = base, "s/"
 		return sub
 	}
 	return newMem()
@@ -73,7 +82,11 @@ func c03NewFSKind(kind int) hackpadfs.FS {
 
 // c03SymTree: arbitrary well-formed pre-state through the helpers (no model: the oracle is the invariant).
 func c03SymTree(fs hackpadfs.FS) {
+	if c03BuildFS != nil {
+		fs = c03BuildFS
+	}
 	for i, p := range rUniverse() {
+		p = c03BuildPrefix + p
 		id := verifName("n", i)
 		switch verifChoice(id+".kind", 3) {
 		case 1:
@@ -99,26 +112,11 @@ func c03Invariant(fs hackpadfs.FS, when string) {
 			continue
 		}
 		verifAssert(err == nil && oerr == nil, when+": Stat and Open disagree about the existence of a path")
-		if p == "." {
-			continue
+		if p != "." {
+			c03ParentInvariant(fs, p, info, when)
 		}
-		// every path that exists has a parent that is a directory whose listing contains it
-		pinfo, perr := hackpadfs.Stat(fs, path.Dir(p))
-		verifAssert(perr == nil, when+": an entry exists whose parent does not exist (orphan)")
-		verifAssert(pinfo.IsDir(), when+": an entry exists below a path that is not a directory (hidden entry)")
-		entries, lerr := hackpadfs.ReadDir(fs, path.Dir(p))
-		verifAssert(lerr == nil, when+": the parent of an existing entry cannot be listed")
-		found := 0
-		for _, e := range entries {
-			if e.Name() == path.Base(p) {
-				found++
-				verifAssert(e.IsDir() == info.IsDir(), when+": kind differs between listing and Stat")
-			}
-		}
-		verifAssert(found >= 1, when+": an existing entry is missing from its parent's listing (unreachable from the root)")
-		verifAssert(found <= 1, when+": an entry appears twice in a listing")
 		if info.IsDir() {
-			// every listed child can be Stat'ed and opened, with the same kind
+			// every listed child (the root's included) can be Stat'ed and opened, with the same kind
 			children, cerr := hackpadfs.ReadDir(fs, p)
 			verifAssert(cerr == nil, when+": an existing directory cannot be listed")
 			for _, c := range children {
@@ -133,6 +131,26 @@ func c03Invariant(fs hackpadfs.FS, when string) {
 				_ = h.Close()
 			}
 		}
+	}
+}
+
+// c03ParentInvariant: every path that exists has a parent that is a directory whose listing contains it.
+func c03ParentInvariant(fs hackpadfs.FS, p string, info hackpadfs.FileInfo, when string) {
+	{
+		pinfo, perr := hackpadfs.Stat(fs, path.Dir(p))
+		verifAssert(perr == nil, when+": an entry exists whose parent does not exist (orphan)")
+		verifAssert(pinfo.IsDir(), when+": an entry exists below a path that is not a directory (hidden entry)")
+		entries, lerr := hackpadfs.ReadDir(fs, path.Dir(p))
+		verifAssert(lerr == nil, when+": the parent of an existing entry cannot be listed")
+		found := 0
+		for _, e := range entries {
+			if e.Name() == path.Base(p) {
+				found++
+				verifAssert(e.IsDir() == info.IsDir(), when+": kind differs between listing and Stat")
+			}
+		}
+		verifAssert(found >= 1, when+": an existing entry is missing from its parent's listing (unreachable from the root)")
+		verifAssert(found <= 1, when+": an entry appears twice in a listing")
 	}
 }
 
@@ -201,4 +219,3 @@ func VerifC03Step() {
 	c03Invariant(fs, "after the operation")
 	verifReach("invariant-checked")
 }
-
